@@ -427,24 +427,20 @@ Definition apply_gate (name : string) (args : list expr) (qubits : list qarg) (i
       (fun s => Ok (tt, mkS (s_env s) (s_gates s) (s_subs s) (s_incl s) (s_nq s) (name :: s_gstack s)));;~
       push_frame FGate (map (fun p => (fst p, BVar (SFloat 64) (Some (snd p)) true)) (combine (g_params gd) pvals)
                         ++ map (fun p => (fst p, BQubits [snd p])) (combine (g_qubits gd) bits));;~
+      (* an inverted custom gate is its body reversed with `inv` pushed down to every member *)
       body <~ sconcatM (fun st => match st with
-                                  | SGate _ gname _ gqs =>
+                                  | SGate ms gname gargs gqs =>
                                       if String.eqb gname name then schecked
                                       else if existsb (fun q => match q with QIdx _ _ => true | QId _ => false end) gqs then schecked
-                                      else exec_rec st
-                                  | SPhase _ _ gqs =>
+                                      else exec_rec (SGate (if inv then ms ++ [MInv] else ms) gname gargs gqs)
+                                  | SPhase ms a gqs =>
                                       if existsb (fun q => match q with QIdx _ _ => true | QId _ => false end) gqs then schecked
-                                      else exec_rec st
+                                      else exec_rec (SPhase (if inv then ms ++ [MInv] else ms) a gqs)
                                   | _ => schecked
-                                  end) (g_body gd);;
+                                  end) (if inv then rev (g_body gd) else g_body gd);;
       pop_frame;;~
       (fun s => Ok (tt, mkS (s_env s) (s_gates s) (s_subs s) (s_incl s) (s_nq s) (tl (s_gstack s))));;~
-      (if inv && existsb (fun t => match t with
-                                   | TGate n _ _ _ => negb (smem n self_inverse_names || smem n table_inverse_names || smem n negation_inverse_names)
-                                   | _ => false
-                                   end) body
-       then known "inverse of a non-involutive multi-qubit library gate" (sret tt) else sret tt);;~
-      sret (if inv then invert_trace body else body)
+      sret body
   | None =>
       match lookup_op bitref name with
       | None => schecked
@@ -456,7 +452,7 @@ Definition apply_gate (name : string) (args : list expr) (qubits : list qarg) (i
                  match lookup_inv bitref name with
                  | InvUnsupported => sunspec "inverse the implementation may reject"
                  | _ => if smem name self_inverse_names || smem name table_inverse_names || smem name negation_inverse_names then sret tt
-                        else known "inverse of a non-involutive multi-qubit library gate" (sret tt)
+                        else sunspec "inverse of a library gate the inverse table rejects (rejection is allowed)"
                  end
                else sret tt);;~
               pvals <~ smapM (fun e => seval0 e false) args;;
